@@ -19,7 +19,7 @@ check('C02', 'complete enumeration of the vendored spec corpus against expected 
 
 check('C06', 'exhaustive small-alphabet enumeration + Hypothesis strings against an independent reference model of the spec delimiter algorithm',
       'enumeration-pool + hypothesis-sharded',
-      'All strings over {a,space,*,_,.} up to length 8 (10 thorough), {a,*} and {a,_} up to 14 (17), {a,*,_} up to 10 (13) and '
+      'All strings over {a,space,*,_,.} up to length 8 (11 thorough), {a,*} and {a,_} up to 14 (17), {a,*,_} up to 10 (13) and '
       'random wide-alphabet strings are rendered and compared with an executable model written from the spec text; the enumerated '
       'parts are complete over their finite domains, the rest is sampling.',
       'Trusts vf/oracle/emphasis.py (validated at start-up on the >100 eligible spec emphasis examples) and unicodedata.',
